@@ -1,5 +1,6 @@
 import NflowsModel.Properties.C03
 import NflowsModel.Lemmas.FlowWholeND
+import NflowsModel.Lemmas.CouplingJacobian
 /-!
 # C03, continued — the n-dimensional `DiffeoN` parts are inhabited by EXECUTED programs
 
@@ -42,5 +43,14 @@ theorem executed_pipeline_is_normalised_diag (e : Float → ℝ) {n : ℕ} (mean
 theorem executed_flow_is_normalised (e : Float → ℝ) {D : ℕ} (parts : List (DiffeoN D)) :
     ∫ x : Fin D → ℝ, Real.exp (NF.Density.stdNormalRow (NF.realX e) D (List.ofFn ((progN parts).T x)) + (progN parts).ld x) = 1 :=
   FlowWholeND.executed_flow_normalised e parts
+
+/-- **pipelines that also contain executed COUPLING layers** (RQ with linear tails, additive or affine elements; any mask; the
+    conditioner an arbitrary function, under the explicit hypothesis `CouplingRowHyp` that the executed row map is differentiable
+    — discharged for constant and, for the additive / affine families, for affine conditioners): together with RQ-CDF, permutation,
+    LU/QR/SVD and autoregressive layers, over the executed standard-normal row, `exp(log_prob)` integrates to one. -/
+theorem executed_pipeline_with_coupling_is_normalised (e : Float → ℝ) {n : ℕ} (Ls : List (NF.CouplingJacobian.ExecLayer2 e n)) :
+    ∫ x : Fin n → ℝ, Real.exp (NF.Density.stdNormalRow (NF.realX e) n (List.ofFn (NF.CouplingJacobian.runAll2 Ls x).1)
+        + (NF.CouplingJacobian.runAll2 Ls x).2) = 1 :=
+  NF.CouplingJacobian.executed_pipeline2_normalised Ls
 
 end Properties.C03
